@@ -43,19 +43,24 @@ def j_umode(ctx):
     changes = parse_umodes(ps[1:])
     m0 = pre.users[a]['modes']; m1 = post.users[a]['modes']
     cur = dict(m0)
+    dropped_by_O = False
     for sign, ch in changes:
         if ch == 'i': cur['invisible'] = sign
         elif ch == 'w': cur['wallops'] = sign
         elif ch == 'o':
             if not sign: cur['oper'] = False              # +o through MODE never grants
         elif ch == 'O':
-            if not sign: cur['local_oper'] = False
+            if not sign: cur['local_oper'] = False; dropped_by_O = True
     obs.append(('umode:invisible', 'MODE: +i/-i set and clear invisibility', Iff(m1['invisible'], cur['invisible'])))
     obs.append(('umode:wallops', 'MODE: +w/-w set and clear WALLOPS reception', Iff(m1['wallops'], cur['wallops'])))
     obs.append(('umode:oper-grant', 'MODE never confers operator status (+o)', Implies(m1['oper'], m0['oper'])))
     obs.append(('umode:oper-grant', 'MODE never confers local operator status (+O)', Implies(m1['local_oper'], m0['local_oper'])))
     if any(ch == 'o' for _, ch in changes) or any(ch == 'O' for _, ch in changes):
-        obs.append(('umode:oper-drop', 'MODE: operator status afterwards is what removing the named modes leaves', Iff(m1['oper'], cur['oper'])))
+        if dropped_by_O:
+            # -O may also drop the (stronger) operator flag: giving up privileges is always allowed
+            obs.append(('umode:oper-drop', 'MODE: operator status afterwards is at most what removing the named modes leaves', Implies(m1['oper'], cur['oper'])))
+        else:
+            obs.append(('umode:oper-drop', 'MODE: operator status afterwards is what removing the named modes leaves', Iff(m1['oper'], cur['oper'])))
         obs.append(('umode:oper-drop', 'MODE: local operator status afterwards is what removing the named modes leaves', Iff(m1['local_oper'], cur['local_oper'])))
     else:
         obs.append(('umode:oper-keep', 'MODE without o/O leaves operator status alone', And(Iff(m1['oper'], m0['oper']), Iff(m1['local_oper'], m0['local_oper']))))
